@@ -290,6 +290,42 @@ def directed_lookup_purity(ctx):
                     ctx.violation("an operation mutated the value passed in", op=name, schema=repr(s), before=before, after=deep_snapshot(v))
 
 
+def directed_path_purity(ctx):
+    """validate(schema, value, path=p): the caller's path holder is the same afterwards, and doing it again — also with
+    another schema — reports the same paths (a holder handed on instead of copied shows up here)"""
+    from th import PathHolder
+    schemas = [schema.list(schema.int), schema.alias("A", schema.list(schema.int)), schema.any(schema.list(schema.int), schema.list(schema.str)),
+               schema.list([schema.int, ...]), schema.list([..., schema.int, ...]), schema.dict({"id": schema.int, "xs": schema.list(schema.str)}),
+               schema.any(schema.dict({"k": schema.int}), schema.none), schema.list(schema.list(schema.int)), schema.int,
+               schema.alias("A", schema.alias("B", schema.dict({"id": schema.int})))]
+    values = [[1, 2, "x"], [1, "a"], [], {"id": "x", "xs": [1]}, {"k": "v"}, [[1], ["x"]], "s", {"id": 1, "xs": ["a", 2]}]
+    for s in schemas:
+        for v in values:
+            p = PathHolder("body")
+            before = repr(p)
+            runs = []
+            for _ in range(2):
+                try:
+                    runs.append(sorted(repr(e.path) for e in validate(s, v, path=p).get_errors()))
+                except Exception as e:  # noqa: BLE001
+                    runs.append(type(e).__name__)
+            ctx.count("directed_path_purity_cases")
+            if repr(p) != before:
+                ctx.violation("validate mutated the path holder passed in", schema=repr(s), value=repr(v), before=before, after=repr(p))
+            elif runs[0] != runs[1]:
+                ctx.violation("repeating an operation on equal inputs gave different results", op="validate(path=...)", schema=repr(s),
+                              value=repr(v), first=runs[0][:4], second=runs[1][:4])
+            # without a caller path: every error path of a failing union starts where the union sits
+            try:
+                for e in validate(schema.dict({"u": s}), {"u": v}).get_errors():
+                    if not repr(e.path).startswith("PathHolder()['u']"):
+                        ctx.violation("an error path does not start at the position being validated", schema=repr(s), value=repr(v),
+                                      path=repr(e.path))
+                        break
+            except Exception:  # noqa: BLE001
+                pass
+
+
 def order_independence(ctx):
     """results do not depend on what was executed before: the same value-only operations are evaluated here in one order and
     in a fresh interpreter in the reverse order (a cache or any other state shared between calls shows up as a difference)"""
@@ -440,6 +476,7 @@ def run(ctx):
     directed_aliasing(ctx)
     directed_value_purity(ctx)
     directed_lookup_purity(ctx)
+    directed_path_purity(ctx)
     order_independence(ctx)
     steps = ctx.n(30, 100)
     for h in range(ctx.n(25, 80)):
